@@ -3,8 +3,10 @@ from __future__ import annotations
 
 import re
 
-PAIR = re.compile(r"\((\d+),(\d+)\)")
-ALIGNMENT = re.compile(r"(\(\d+,\d+\))*")
+# a minus sign is accepted syntactically: a negative label number is then judged by the checks (no label of any map, C01 / C02)
+# instead of being set aside as a malformed file
+PAIR = re.compile(r"\((-?\d+),(-?\d+)\)")
+ALIGNMENT = re.compile(r"(\(-?\d+,-?\d+\))*")
 
 
 class XmapFormatError(Exception):
